@@ -47,14 +47,28 @@ def _repo_submit_returns(rc, name):
     return None
 
 
+def backend_fn_aliases(fnode):
+    """locals bound to a backend function object: `backend_submit = self._submit_fn(exec_be)` -> {"backend_submit": "submit_fn"}"""
+    out = {}
+    for n in walk_shallow(fnode):
+        if isinstance(n, ast.Assign) and len(n.targets) == 1 and isinstance(n.targets[0], ast.Name) and isinstance(n.value, ast.Call):
+            c = n.value
+            if isinstance(c.func, ast.Attribute) and norm(c.func.value) == "self" and c.func.attr in ("_submit_fn", "_map_fn", "_starmap_fn"):
+                out[n.targets[0].id] = c.func.attr[1:]
+    return out
+
+
 def _output_vars(f: FuncInfo):
     """names bound to the result of a call into the backend (self._submit_fn(be)(...), self._map_fn(be)(...), exec_be.x(...))"""
     out = set()
+    aliases = backend_fn_aliases(f.node)
     for n in walk_shallow(f.node):
         if isinstance(n, ast.Assign) and isinstance(n.value, ast.Call):
             callee = n.value.func
-            hit = False
-            if isinstance(callee, ast.Call) and isinstance(callee.func, ast.Attribute) and norm(callee.func.value) == "self" \
+            hit = isinstance(callee, ast.Name) and callee.id in aliases
+            if hit:
+                pass
+            elif isinstance(callee, ast.Call) and isinstance(callee.func, ast.Attribute) and norm(callee.func.value) == "self" \
                     and callee.func.attr in ("_submit_fn", "_map_fn", "_starmap_fn"):
                 hit = True
             elif isinstance(callee, ast.Attribute) and isinstance(callee.value, ast.Name) and callee.value.id == "exec_be":
@@ -147,6 +161,13 @@ def check_extra(ctx, rep, base, execs, cfgs):
                     if not feas:
                         continue
                     v = st.value
+                    if isinstance(v, ast.IfExp):
+                        # `return output if self._cfg.blocking else output.result()`: take the arm feasible under this configuration
+                        tv = _eval(v.test, cfg, kind, rc)
+                        if tv is None:
+                            rep.unknown("R-C65-return", where + f" `{norm(st)[:60]}`", "conditional return under an unmodelled condition")
+                            continue
+                        v = v.body if tv else v.orelse
                     if isinstance(v, ast.Name) and v.id in outs:
                         got = "raw"
                     elif isinstance(v, ast.Call) and isinstance(v.func, ast.Attribute) and v.func.attr == "result" and isinstance(v.func.value, ast.Name) \
@@ -235,11 +256,40 @@ def check_extra(ctx, rep, base, execs, cfgs):
                 and isinstance(body[0].body[0], ast.Return) and norm(body[0].body[0].value) == "self._persistent_backend" \
                 and isinstance(body[1], ast.Return) and isinstance(body[1].value, ast.Call):
             ok = True
+        if not ok:
+            # any other arrangement of the same decision: the return of the persistent backend is reachable only across an edge that
+            # establishes self._persist (true edge of `if self._persist`, false edge of `if not self._persist`)
+            gcfg = CFG(getb.node, may_raise=lambda n_: False)
+            prets = [nd for nd in gcfg.stmts("return") if nd.stmt.value is not None and norm(nd.stmt.value) == "self._persistent_backend"]
+            others = [nd for nd in gcfg.stmts("return") if nd not in prets]
+            if prets and others:
+                seen_, stack_, reach = {gcfg.entry}, [gcfg.entry], False
+                while stack_:
+                    cur_ = stack_.pop()
+                    if cur_ in {p_.id for p_ in prets}:
+                        reach = True
+                        break
+                    nd_ = gcfg.nodes[cur_]
+                    glabel = None
+                    if nd_.kind == "test":
+                        t_ = nd_.stmt.test
+                        if norm(t_) == "self._persist":
+                            glabel = "true"
+                        elif isinstance(t_, ast.UnaryOp) and isinstance(t_.op, ast.Not) and norm(t_.operand) == "self._persist":
+                            glabel = "false"
+                    for s_, lab_ in gcfg.succ[cur_]:
+                        if glabel is not None and lab_ == glabel:
+                            continue
+                        if s_ not in seen_:
+                            seen_.add(s_)
+                            stack_.append(s_)
+                ok = not reach
         if ok:
             rep.proved("R-C65-lifecycle", f"{getb.module.relpath}:{getb.qualname}", "persistent backend iff self._persist, else a fresh backend")
         else:
             rets = [n for n in walk_shallow(getb.node) if isinstance(n, ast.Return)]
-            uncond = [r for r in getb.node.body if isinstance(r, ast.Return) and r.value is not None and norm(r.value) == "self._persistent_backend"]
+            uncond = [r for r in getb.node.body if isinstance(r, ast.Return) and r.value is not None and norm(r.value) == "self._persistent_backend"] \
+                if len(rets) == 1 else []
             if uncond:
                 rep.refuted("R-C65-lifecycle", getb.module.relpath, getb.qualname, uncond[0],
                             "`self._persistent_backend` is returned unconditionally: a non-persistent executor (the default) gets None as its backend")
